@@ -303,6 +303,39 @@ def enum_dtypes(tier):
                     yield {"cls": "rect", "axes": axes, "order": order, "rev": rev, "loc": loc, "axdtype": dt}
 
 
+def check_shared_axes(case, ctx):
+    """the same ndarray objects handed to the constructor twice (a model building its grid and a copy for a reader,
+    say): both grids must describe the same index -> coordinate mapping, and the caller's arrays stay untouched"""
+    import finam as fm
+
+    axes = [np.array(a, dtype=case["dtype"]) for a in case["axes"]]
+    keep = [a.copy() for a in axes]
+    kw = {"order": case["order"], "axes_reversed": case["rev"], "data_location": case["loc"]}
+    g1 = fm.RectilinearGrid(axes=axes, **kw)
+    touched = [i for i, (a, k) in enumerate(zip(axes, keep)) if not np.array_equal(a, k)]
+    g2 = fm.RectilinearGrid(axes=axes, **kw)
+    ctx.nontrivial(any(len(a) > 1 and a[0] > a[-1] for a in case["axes"]))
+    ctx.event(f"axes-dtype={case['dtype']}")
+    if touched:
+        ctx.violation("constructor-modifies-caller-axes", f"RectilinearGrid changed the caller's axis array(s) {touched}: {[k.tolist() for k in keep]} -> {[a.tolist() for a in axes]}")
+        return
+    if list(g1.axes_increase) != list(g2.axes_increase) or not _close(g1.data_points, g2.data_points):
+        ctx.violation("same-arguments-different-grid", f"two grids built from the same axis arrays differ: axes_increase {list(g1.axes_increase)} / {list(g2.axes_increase)}")
+        return
+    ref = {"cls": "rect", "axes": [list(map(float, a)) for a in case["axes"]], "order": case["order"], "rev": case["rev"], "loc": case["loc"]}
+    if not _close(g2.data_points, hg.flat_locs(ref)):
+        ctx.violation("shared-axes-data_points", "grid built from re-used axis arrays has other data points than the reference")
+
+
+def enum_shared_axes(tier):
+    axsets = [[[3.0, 2.0, 0.0]], [[0.0, 1.0, 3.0], [4.0, 3.0, 2.0, 1.0]], [[5.0, 1.0], [0.0, 2.0], [9.0, 8.0, 6.0]], [[2.0]]]  # whole numbers: exact in every dtype
+    for axes in axsets:
+        for dt in ("float64", "float32", "int64"):
+            for order, rev in (("F", False), ("C", True)):
+                for loc in ("CELLS", "POINTS"):
+                    yield {"axes": axes, "dtype": dt, "order": order, "rev": rev, "loc": loc}
+
+
 def _short(cfg):
     return {k: (v if not isinstance(v, list) or len(v) < 8 else f"<{len(v)} values>") for k, v in cfg.items()}
 
@@ -340,6 +373,7 @@ def parts():
     return [
         Part("layouts_enum", check_layout, enumerate=lambda tier: hg.enum_layouts(), exhaustive=True),
         Part("layouts_gen", check_layout, strategy=hg.grid_cfg(), strategy_thorough=hg.grid_cfg(max_len=6), budget={"quick": 3000, "thorough": 60000}),
+        Part("shared_axes_enum", check_shared_axes, enumerate=enum_shared_axes, exhaustive=True),
         Part("axis_types_enum", check_layout, enumerate=enum_dtypes, exhaustive=True),
         Part("large_enum", check_large, enumerate=enum_large, exhaustive=True),
         Part("history", check_history, strategy=history_st, budget={"quick": 3000, "thorough": 60000}),
